@@ -452,7 +452,9 @@ def handle (j : Json) : Except String Json := do
       match sv with
       | .single v => ok v
       | .stream items => items.all ok
-    pure (Json.mkObj [("lines", Lean.Json.arr lines.toArray), ("model_round_trip", Json.bool rt)])
+    -- the hypothesis of json_round_trip, evaluated on this protocol's types
+    let wf := p.all fun st => Json.WF st.ty
+    pure (Json.mkObj [("lines", Lean.Json.arr lines.toArray), ("model_round_trip", Json.bool rt), ("wf", Json.bool wf)])
   | "emit" =>
     -- the serializer expression each back end prints for every step of a protocol, and whether the
     -- plan it denotes is the plan of the type (evaluated instance of every_backend_denotes_the_plan)
